@@ -11,7 +11,12 @@ def handleRowFilter (op : String) (a : Args) : String :=
     let f : Filt := if a.nat "flat" != 0 then .flat (groups.headD []) else .nested groups
     let parts := a.nats "parts"
     let rows : List (List (Option Int)) := (a.list "rows").map (fun r => (splitTop r).map (fun c => if c == "n" then none else some (parseInt c)))
-    let sel := columnFilter (fun c => parts.contains c) f rows
+    -- sizes given: the repaired evaluation, a partition condition tested once per row group on the row group's first row
+    let sizes := a.nats "sizes"
+    let starts := sizes.foldl (fun (acc : List Nat × Nat) n => (acc.1 ++ [acc.2], acc.2 + n)) ([], 0)
+    let rgSat : Nat → Cond → Bool := fun i c => evalCond c (rows.getD (starts.1.getD i 0) [])
+    let sel := if (a.get? "sizes").isSome then columnFilterRG (fun c => parts.contains c) rgSat sizes f rows
+               else columnFilter (fun c => parts.contains c) f rows
     s!"ok sel={showNats (sel.map fun b => if b then 1 else 0)}"
   | "slice" =>
     let sel := (a.nats "sel").map (· != 0)
